@@ -82,7 +82,9 @@ MODELS = [
 
 
 def tasks(tier, seed):
-    out = [{"fn": "ctx", "kwargs": {"draws": d}, "label": f"ctx/draws={d}"} for d in (0, 1, 2)]
+    out = [{"fn": "ctx", "kwargs": {"draws": d}, "label": f"ctx/draws={d}"} for d in ((0, 1, 2) if tier == "quick" else (0, 1, 2, 3, 4, 5, 8))]
+    for od, idr in (((0, 1), (1, 1), (1, 2)) if tier == "quick" else [(a, b) for a in (0, 1, 2, 3) for b in (0, 1, 2, 3)]):
+        out.append({"fn": "ctx_nested", "kwargs": {"outer_draws": od, "inner_draws": idr}, "label": f"ctx_nested/outer={od},inner={idr}"})
     for i, m in enumerate(MODELS):
         out.append({"fn": "model", "kwargs": {"i": i}, "label": f"model/{m[0]}"})
         out.append({"fn": "model_twice", "kwargs": {"i": i}, "label": f"model_twice/{m[0]}"})
@@ -131,6 +133,43 @@ def ctx(draws):
             vx.prove(f"C04/ctx/seeded_draws_from_seed/draws={draws}", vx.all_of([_eq(t, rngmodel.RngModel.after(rngmodel.SEEDED(s.t), [n for n, _ in dr[:k]])) for k, (_, t) in enumerate(dr)]))
     else:
         vx.prove(f"C04/ctx/none_is_noop/draws={draws}", _eq(final, rngmodel.RngModel.after(rngmodel.STATE0, [n for n, _ in dr])))
+
+
+def ctx_nested(outer_draws, inner_draws):
+    """A model seed inside a pipeline seed (nested contexts): the inner block draws from its own seed only, and when it ends the outer
+    stream continues exactly where it was - so the outer draws do not depend on whether / how much the inner block drew."""
+    from pyxel.util import set_random_seed
+
+    so, si = vx.integer("outer_seed"), vx.integer("inner_seed")
+    inner_given = vx.boolean("inner_seed_given")
+    boom = vx.boolean("inner_raises")
+    with Patch() as p:
+        rng = rngmodel.RngModel().install(p)
+        with set_random_seed(so):
+            for _ in range(outer_draws):
+                np.random.normal(size=2)
+            mark = len(rng.draws)
+            try:
+                with set_random_seed(si if bool(inner_given) else None):
+                    for _ in range(inner_draws):
+                        np.random.random()
+                    if bool(boom):
+                        raise RuntimeError("inner failed")
+            except RuntimeError:
+                pass
+            inner = rng.draws[mark:]
+            after_inner = rng.state
+            np.random.normal(size=2)
+        final, dr = rng.state, list(rng.draws)
+    lab = f"outer={outer_draws},inner={inner_draws}"
+    vx.prove(f"C04/ctx/nested/outer_restored/{lab}", _eq(final, rngmodel.STATE0))
+    outer_names = ["normal"] * outer_draws
+    if bool(inner_given):
+        vx.prove(f"C04/ctx/nested/inner_from_its_seed/{lab}", vx.all_of([_eq(t, rngmodel.RngModel.after(rngmodel.SEEDED(si.t), [n for n, _ in inner[:k]])) for k, (_, t) in enumerate(inner)]))
+        vx.prove(f"C04/ctx/nested/outer_stream_continues/{lab}", _eq(after_inner, rngmodel.RngModel.after(rngmodel.SEEDED(so.t), outer_names)))
+    else:
+        vx.prove(f"C04/ctx/nested/unseeded_inner_consumes_outer/{lab}", _eq(after_inner, rngmodel.RngModel.after(rngmodel.SEEDED(so.t), outer_names + [n for n, _ in inner])))
+    vx.prove(f"C04/ctx/nested/nothing_depends_on_prior_state/{lab}", all(not rng.depends_on_initial_state(t) for _, t in dr))
 
 
 # -- H2 -----------------------------------------------------------------------------------------------
@@ -479,6 +518,38 @@ def replay(oid, kwargs, model, data):
             bad = any(v["reseeded"] or (v["bits_same"] and not v["gauss_same"]) for v in out.values())
             return bad, out
         return False, res
+    if data["fn"] == "ctx_nested":
+        from pyxel.util import set_random_seed
+
+        so, si = int(model.get("outer_seed", 3)) % 2**31, int(model.get("inner_seed", 4)) % 2**31
+        given, boom = bool(model.get("inner_seed_given", True)), bool(model.get("inner_raises", False))
+
+        def run(inner_draws):
+            np.random.seed(999)
+            np.random.normal()
+            st0 = np.random.get_state()
+            inner_vals = []
+            with set_random_seed(so):
+                for _ in range(kwargs["outer_draws"]):
+                    np.random.normal(size=2)
+                try:
+                    with set_random_seed(si if given else None):
+                        for _ in range(inner_draws):
+                            inner_vals.append(float(np.random.random()))
+                        if boom:
+                            raise RuntimeError("inner failed")
+                except RuntimeError:
+                    pass
+                last = np.random.normal(size=2).tolist()
+            st1 = np.random.get_state()
+            same = st0[0] == st1[0] and np.array_equal(st0[1], st1[1]) and tuple(st0[2:]) == tuple(st1[2:])
+            return last, same, inner_vals
+
+        a, b = run(kwargs["inner_draws"]), run(kwargs["inner_draws"] + 3)
+        ref = np.random.RandomState(si)
+        want_inner = [float(ref.random_sample()) for _ in range(kwargs["inner_draws"])]
+        bad = (not a[1]) or (given and a[0] != b[0]) or (given and a[2] != want_inner)
+        return bad, {"prior_state_restored": a[1], "outer_draw_after_inner_block": a[0], "same_with_three_more_inner_draws": b[0], "inner_draws": a[2], "inner_draws_of_its_seed": want_inner}
     if data["fn"] == "model_twice":
         import importlib
 
